@@ -78,7 +78,7 @@ def stream_recipes(nmax=3):
 
 def build_stream(iface, kind, n, raise_at):
     m = mod_for(iface)
-    items = [b"", b"a", b"bb", b"", b"ccc", b"d"][:n] if kind == "stream" else [{"data": "x"}, {"event": "e"}, {"id": "1", "data": "y\nz"}, {"retry": 5}, {}, {"data": ""}][:n]
+    items = [b"", b"a", b"bb", b"", b"ccc", b"d"][:n] if kind == "stream" else [{"data": "x"}, {}, {"id": "1", "data": "y\nz"}, {"retry": 5}, {"event": "e"}, {"data": ""}][:n]
 
     def sgen():
         for i, it in enumerate(items):
@@ -535,8 +535,10 @@ def run_shard(desc, tier):
                 f.write(bytes(range(10)))
             p0 = os.path.join(d, "empty.bin")
             open(p0, "wb").close()
-            ranges = [None, "bytes=0-3", "bytes=0-5", "bytes=2-9", "bytes=0-0,5-6", "bytes=0-3,6-9", "bytes=5-4", "bytes=20-", "nonsense", "bytes=-0", "bytes=0-2,20-"]
-            for (size, p), dn, rng, method, chunk, ifr in itertools.product(((10, p), (0, p0)), NAMES, ranges, ("GET", "HEAD"), (None, 1, 2, 3, 4), (None, '"stale"', "")):
+            ranges = [None, "bytes=0-3", "bytes=0-5", "bytes=2-9", "bytes=0-0,5-6", "bytes=0-3,6-9", "bytes=5-4", "bytes=20-", "nonsense", "bytes=-0", "bytes=0-2,20-",
+                      # header values are octets, not necessarily UTF-8 text
+                      "bytes=0-3,caf\xe9", "\xff\xfe=0-1"]
+            for (size, p), dn, rng, method, chunk, ifr in itertools.product(((10, p), (0, p0)), NAMES, ranges, ("GET", "HEAD"), (None, 1, 2, 3, 4), (None, '"stale"', "", '"caf\xe9"', "\xff")):
                 if ifr is not None and (chunk not in (None, 3) or dn not in (None, "é.txt")):
                     continue
                 if size == 0 and (chunk not in (None, 1) or dn not in (None, "é.txt")):
